@@ -77,6 +77,30 @@ fn main() {
             replay: Box::new(|c| replay(&h_objects::all_traits(), c)),
         });
     }
+    if prop == "C13" {
+        sections.push(Section {
+            name: "int_result_traits",
+            explore: Box::new(|cx: &Cx| {
+                let cases: Vec<_> = h_objects::all_traits().into_iter().filter(|t| t.desc.contains("ret=int_") || t.desc.contains("ret=no_int") || t.desc.contains("int_result")).collect();
+                let depth = cx.tier.pick(3, 3);
+                cx.rule("int_result_traits", &format!("every trait of the grammar tier whose method uses #[int_result] (Result<u64,()>, Result<(),()>, Result<droppable,()>, Result<u64, io::Error> with OS and non-OS errors, Result<u64, fmt::Error>, a result alias via #[int_result(PResult)], #[no_int_result]) x every receiver x every call sequence of length <= {} over (argument value, Ok/Err arm) through Box/ArcBox/Mut/ArcMut/Ref/ArcRef/CArcSome objects; oracle: the caller's Result equals the callee's (differential against the direct call), payloads dropped exactly once, allocator balanced", depth));
+                cx.note("int_result_traits", "traits", serde_json::json!(cases.len()));
+                let mut nodes = 0u64;
+                for d in 1..=depth {
+                    let n: u64 = cases.par_iter().map(|tc| {
+                        let seqs = sequences(tc, d);
+                        for seq in &seqs {
+                            run_one(cx, "int_result_traits", tc, seq);
+                        }
+                        seqs.len() as u64
+                    }).sum();
+                    nodes += n;
+                }
+                cx.add_states("int_result_traits", nodes, nodes, depth as u64);
+            }),
+            replay: Box::new(|c| replay(&h_objects::all_traits(), c)),
+        });
+    }
     if prop == "C04" {
         sections.push(Section {
             name: "vtable_slots",
